@@ -136,7 +136,10 @@ func verifHarness_C17_blobFlow() {
 		return
 	}
 
-	in := &commonpb.DataBlob{EncodingType: enumspb.ENCODING_TYPE_PROTO3, Data: []byte("wire")}
+	// the serializers decide what they can decode; the blob flow itself must not judge by the label
+	encs := []enumspb.EncodingType{enumspb.ENCODING_TYPE_PROTO3, enumspb.ENCODING_TYPE_JSON, enumspb.ENCODING_TYPE_UNSPECIFIED}
+	in := &commonpb.DataBlob{EncodingType: encs[verifChoose("encoding", 3)], Data: []byte("wire")}
+	verifReachIf(in.EncodingType != enumspb.ENCODING_TYPE_PROTO3, "non-proto3-blob")
 	out, matched, changed, err := translateOneDataBlob(log.NewNoopLogger(), match, visitor, in)
 	verifObserve("blob-flow", first, matched, changed, err != nil, visitCalls, ser.serCalls)
 
